@@ -41,7 +41,9 @@ def v32(rng):
 
 
 def gen_state(rng, big=False, now=1700000000):
-    """A well-formed state together with the array geometry it needs.  `big`: 1 = positions around 2^14, 2 = around 2^21 (slow in the model: about a minute)."""
+    """A well-formed state together with the array geometry it needs.  big == 3: see gen_huge.  `big`: 1 = positions around 2^14, 2 = around 2^21 (slow in the model: about a minute)."""
+    if big == 3:
+        return gen_huge(rng, now)
     nd = rng.randrange(1, 5)
     nl = rng.choice([1, 1, 2, 2, 3, 4, 6])
     hs = rng.choice([16, 16, 16, 8, 4, 2])
@@ -238,6 +240,49 @@ def gen_state(rng, big=False, now=1700000000):
              maps=maps, parity=parity, disks=disks, info_runs=runs_of(info))
     geom = dict(nd=nd, nl=nl, hs=hs, bs_k=bs_k, split=split)
     return s, geom
+
+
+def gen_huge(rng, now):
+    """byte sizes across 2^31 / 2^32 with few blocks: block size 4..16 MiB, a file of about 4 GiB/blocksize blocks on one disk, a run of
+    DELETED blocks of about the same length on another (count * blocksize around 2^32: the size of the loader's fake <deleted> file),
+    file sizes at 2^32 - 1, 2^32, 2^32 + 1."""
+    from c10_lib import runs_of
+    bs_k = rng.choice([4096, 8192, 16384])
+    bs = bs_k * 1024
+    K = (1 << 32) // bs
+    hs = rng.choice([16, 16, 8, 2])
+    nl = rng.choice([1, 2])
+    split = [rng.choice([1, 1, 2]) for _ in range(nl)]
+    r = rng.randrange(0, 3)
+    n = K + rng.choice([-1, 0, 1, 2, 5])                 # blocks of the big file
+    size = rng.choice([(1 << 32) - 1, 1 << 32, (1 << 32) + 1, n * bs, (n - 1) * bs + 1])
+    n = (size + bs - 1) // bs
+    st = rng.choice([BLK, BLK, CHG])
+    cut = rng.randrange(1, n)
+    blocks = [dict(state=(st if i < cut else rng.choice([BLK, REP])), pos=r + i, hash=rbytes(rng, hs)) for i in range(n)]
+    bm = r + n
+    m = rng.choice([K - 1, K, K + 1, n - 1, K // 2, K // 2 + 1])    # length of the DELETED run
+    m = max(1, min(m, n))
+    dstart = r + rng.randrange(0, n - m + 1)
+    small = lambda pos: dict(size=rng.randrange(1, bs + 1), msec=v64(rng), mnsec=rng.choice([NSEC_INVALID, 0, 999999999]), inode=v64(rng),
+                             sub=rname(rng), blocks=[dict(state=BLK, pos=pos, hash=rbytes(rng, hs))])
+    d1 = dict(name=b'd1', files=[dict(size=size, msec=v64(rng), mnsec=rng.choice([NSEC_INVALID, 1]), inode=v64(rng), sub=rname(rng), blocks=blocks)] +
+              ([small(p) for p in range(r)] if rng.random() < 0.5 else []), links=[], dirs=[], deleted=[])
+    d2 = dict(name=b'd2', files=[dict(size=0, msec=1, mnsec=0, inode=7, sub=b'empty', blocks=[])], links=[], dirs=[rname(rng)],
+              deleted=[(dstart + i, rbytes(rng, hs)) for i in range(m)])
+    disks = [d1, d2]
+    used = {b['pos'] for f in d1['files'] for b in f['blocks']}
+    blk = {b['pos'] for f in d1['files'] for b in f['blocks'] if b['state'] == BLK}
+    t0 = (now - 4000) & 0xffffffff & ~7
+    info = []
+    for p in range(bm):
+        info.append((t0 + 8 * (p % 3 == 0)) | rng.choice([0, 4, 4, 1]) if (p in blk or rng.random() < 0.7) and p in used else 0)
+    maps = [dict(name=b'd2', pos=1, total=v32(rng), free=v32(rng), uuid=b''), dict(name=b'd1', pos=0, total=v32(rng), free=v32(rng), uuid=b'')]
+    parity = [dict(total=v32(rng), free=v32(rng), splits=[dict(path=b'/x', uuid=b'', size=rng.choice([bm * bs, 1 << 32, (1 << 32) - bs, SIZE_INVALID]))
+                                                         for _ in range(split[l])]) for l in range(nl)]
+    s = dict(bs=bs, hs=hs, hash=rng.choice([1, 2]), seed=rbytes(rng, 16), prev=0, pseed=b'\0' * 16, maps=maps, parity=parity, disks=disks,
+             info_runs=runs_of(info))
+    return s, dict(nd=2, nl=nl, hs=hs, bs_k=bs_k, split=split)
 
 
 # ---------------------------------------------------------------------------------------
